@@ -27,6 +27,73 @@ func runC17(p *Prog, r *Report) {
 	nb := lockBalance(p, r, r7, "dns", nil) + lockBalance(p, r, r7, "cache", nil)
 	r.Count("lock_operations_checked", nb)
 	r.Floor(r7, 4)
+	c17R8(p, r)
+}
+
+// c17R8: a message for a family that is already complete changes nothing. parseMsg ignores a
+// second response to a query that was already answered (a duplicate on the wire, a late UDP answer
+// after the TCP retry, a repeated TCP message) — "ignores" must mean that no field of the builder is
+// written before the done test lets the message through, otherwise the duplicate wipes or alters
+// what the first answer supplied and the damaged result is returned and cached.
+func c17R8(p *Prog, r *Report) {
+	const rule = "C17-R8"
+	r.Rule(rule, "a response for a family that is already done leaves the result untouched: every store into a field of the result builder in parseMsg (assignment, append-assignment, increment) lies behind the false edge of a test of one of the builder's done flags (the boolean fields parseMsg sets to true), on every path from the entry")
+	fc := p.Inlined(p.Func("dns", "resultBuilder", "parseMsg"))
+	info := fc.Info()
+	recv := fc.RecvObj()
+	// done flags: boolean fields of the receiver assigned the constant true
+	done := map[string]bool{}
+	for _, v := range fc.G.V {
+		as, ok := v.Node.(*ast.AssignStmt)
+		if !ok || v.Kind != VStmt || len(as.Lhs) != 1 || len(as.Rhs) != 1 {
+			continue
+		}
+		root, path, okp := pathOf(info, as.Lhs[0])
+		if okp && root == recv && path != "" && exprStr(as.Rhs[0]) == "true" {
+			done[path] = true
+		}
+	}
+	var notDone []Edge
+	for path := range done {
+		pth := path
+		notDone = append(notDone, fc.TestEdges(func(e ast.Expr) bool {
+			root, pp, okp := pathOf(info, e)
+			return okp && root == recv && pp == pth
+		}, WantFalse)...)
+	}
+	r.Check(len(done) >= 2 && len(notDone) >= 2, rule, "dns.(*resultBuilder).parseMsg:done-tests", p.posStr(fc.Body.Pos()), "both done flags are set and tested", fmt.Sprintf("found %d done flag(s) and %d not-done edge(s) in parseMsg: a repeated answer is not recognised", len(done), len(notDone)))
+	n := 0
+	for _, v := range fc.G.V {
+		if v.Kind != VStmt || v.Node == nil {
+			continue
+		}
+		var lhs []ast.Expr
+		switch st := v.Node.(type) {
+		case *ast.AssignStmt:
+			lhs = st.Lhs
+		case *ast.IncDecStmt:
+			lhs = []ast.Expr{st.X}
+		}
+		for _, l := range lhs {
+			base := l
+			for {
+				if ix, ok := ast.Unparen(base).(*ast.IndexExpr); ok {
+					base = ix.X
+					continue
+				}
+				break
+			}
+			root, path, okp := pathOf(info, base)
+			if !okp || root != recv || path == "" {
+				continue
+			}
+			n++
+			r.Check(fc.G.EdgeDominates(notDone, v.ID), rule, "dns.(*resultBuilder).parseMsg:store-behind-done-test:"+strings.TrimPrefix(path, "."), p.posStr(v.Node.Pos()), "the store is reached only after a done flag tested false",
+				"parseMsg writes "+exprStr(l)+" on a path that has not yet tested whether this family is already done: a duplicate or late response for an answered query alters the collected result before being ignored, and the altered result is returned and cached")
+		}
+	}
+	r.Count("builder_stores", n)
+	r.Floor(rule, 4)
 }
 
 func c17R1(p *Prog, r *Report) {
